@@ -1,4 +1,4 @@
-(* GENERATED by /tmp-script from traced sequential runs of the repaired strax code (call skeletons of
+(* GENERATED with harness.props.c15_ctx.build_mc / coq_terms from traced sequential runs of the repaired strax code (call skeletons of
    Context.get_array); the check re-derives these terms from the real code on every run (unit ctx_race/
    sequential: same skeleton, same label trace).  Used as Examples: the hypothesis of ctx_race_free holds. *)
 From SV Require Import Base.Prelude Model.CtxRace.
